@@ -653,6 +653,16 @@ func ruleStaleDetection(c *Ctx) {
 		}, isConstInt(0))},
 		func(h []bool) bool { return (h[0] || h[2]) && (h[1] || h[3] || h[4]) },
 		"an operator is kept only if its current step's precondition holds and the conf version advanced by no more than its steps account for (or its removal was attempted and it was no longer registered)")
+	// an operator that was just cancelled as stale is reported as such: the caller sends no command for it
+	c.need(rule, cs, "answer other than 'stale'", func(x ssa.Instruction) bool {
+		r, ok := x.(*ssa.Return)
+		if !ok || len(r.Results) != 1 {
+			return false
+		}
+		b, isB := constBool(retVal(r, 0))
+		return !(isB && b)
+	}, []Ev{guardCall("RemoveOperator(op) removed it", true, callMatcher(remove))}, func(h []bool) bool { return !h[0] },
+		"once the operator was removed as stale the answer is true: Dispatch must not go on to send its step")
 	n := len(callsIn(cs, false, remove))
 	c.Check(n >= 2, rule, "stale conditions in "+fnName(cs), "both conditions (precondition, conf-version accounting) cancel the operator", P.pos(cs.Pos()), fmt.Sprintf("%d removal sites", n))
 	// latest − origin: minuend from the heartbeat region, subtrahend from the operator's recorded epoch
@@ -773,10 +783,50 @@ func ruleStepAccounting(c *Ctx) {
 func init() {
 	register("C09", "Operator lifecycle: one per region, epoch-checked, stale ones cancelled", func(c *Ctx) {
 		c.Group("C09/status-matrix", "the status transition table equals the stated relation, is constant, and is the only way the status changes", func() { ruleStatusMachine(c) })
-		c.Group("C09/running-set", "operators are registered under their own region id, removed only by identity, admitted only after checkAddOperator under the controller lock; its atoms reject missing region, epoch mismatch, lower priority, non-created, expired", func() { ruleOneOperatorPerRegion(c) })
+		c.Group("C09/running-set", "operators are registered under their own region id, removed only by identity, admitted only after checkAddOperator under the controller lock; its atoms reject missing region, epoch mismatch, lower priority, non-created, expired", func() { ruleOneOperatorPerRegion(c); ruleStartedOperatorIsRegistered(c) })
 		c.Group("C09/removed-buried", "leaving the running set ⇒ end status and recorded", func() { ruleRemovedIsBuried(c) })
 		c.Group("C09/command-stamp", "commands enter the stream only through SendMsg/SendErr, stamped from the dispatched region; every step type can be sent", func() { ruleCommandsStamped(c) })
 		c.Group("C09/stale-detection", "heartbeat dispatch sends only when not stale; staleness = failed step precondition or conf-version delta above the steps' accounting", func() { ruleStaleDetection(c); ruleStepPreconditionsMatchPlanner(c) })
 		c.Group("C09/id-kind", "peer ids, store ids and region ids are never mixed in server/...", func() { ruleIDKinds(c) })
 	})
+}
+
+// ruleStartedOperatorIsRegistered: addOperatorLocked registers what it started
+// (otherwise a second operator is admitted for the region while the first
+// one's step is already with the store), and an operator it replaces is
+// removed and marked REPLACED.
+func ruleStartedOperatorIsRegistered(c *Ctx) {
+	P := c.P
+	const sch = "server/schedule"
+	rule := c.Prop + "/running-set"
+	fn := P.Method(sch, "OperatorController", "addOperatorLocked")
+	opsF := P.Field(sch, "OperatorController", "operators")
+	start := F(P.Method("server/schedule/operator", "Operator", "Start"))
+	replace := F(P.Method("server/schedule/operator", "Operator", "Replace"))
+	rmLocked := F(P.Method(sch, "OperatorController", "removeOperatorLocked"))
+	isInsert := func(x ssa.Instruction) bool {
+		mu, ok := x.(*ssa.MapUpdate)
+		return ok && isLoadOf(mu.Map, opsF)
+	}
+	c.mustFollowEdge(rule, fn, "op.Start() succeeded", func(cond ssa.Value, pos bool) bool {
+		cl, ok := cond.(*ssa.Call)
+		return ok && pos && start.Match(cl.Common())
+	}, "operators[regionID] = op", isInsert, nil, "an operator that was started is registered as the region's running operator")
+	hasOld := func(cond ssa.Value, pos bool) bool {
+		// the ok of `old, ok := operators[id]`, or old != nil
+		if ex, isEx := cond.(*ssa.Extract); isEx && pos && ex.Index == 1 {
+			if l, isL := ex.Tuple.(*ssa.Lookup); isL && isLoadOf(l.X, opsF) {
+				return true
+			}
+		}
+		r, ok := relOf(cond, pos)
+		return ok && matchRel(r, "!=", func(v ssa.Value) bool {
+			l, isL := strip(v).(*ssa.Lookup)
+			return isL && isLoadOf(l.X, opsF)
+		}, isNilConst)
+	}
+	c.mustFollowEdge(rule, fn, "the region already has a running operator", hasOld, "old.Replace()", instrCallMatcher(replace), nil,
+		"the operator that is replaced ends in status REPLACED")
+	c.mustFollowEdge(rule, fn, "the region already has a running operator", hasOld, "removeOperatorLocked(old)", instrCallMatcher(rmLocked), nil,
+		"the operator that is replaced is taken out of the running set (and its counters) before the new one is started")
 }
